@@ -153,6 +153,7 @@ def h_config_override(V, sym, level):
     a = make_real_tensor(V, sym, 2, 1, None, 'float64')
     d = V.call(a.to_dict, level=level)
     other = 'U1' if sym != 'U1' else 'Z2'
+    snapshot = dict(d)
     out = V.outcome(Tensor.from_dict, d, yastn.make_config(sym=sym_class(other)))
     V.check('config-with-different-symmetry-rejected', out.exc is not None and isinstance(out.exc, YastnError))
     out = V.outcome(Tensor.from_dict, d, yastn.make_config(sym=sym_class(sym), fermionic=True))
@@ -160,6 +161,7 @@ def h_config_override(V, sym, level):
     cfg2 = yastn.make_config(sym=sym_class(sym), default_fusion='meta')
     out = V.outcome(Tensor.from_dict, d, cfg2)
     V.check('compatible-config-overrides', out.exc is None and out.value.config is cfg2 or (out.exc is None and out.value.config == cfg2))
+    V.check('caller-dictionary-not-modified', set(d.keys()) == set(snapshot.keys()) and all(d[k] is snapshot[k] for k in snapshot))
 
 
 def h_split_combine(V, depth, ndata):
